@@ -19,6 +19,7 @@ order, one separator, parentheses iff parenthetical, blank runs condensed per le
   encapsulation, also through nesting.
 -/
 
+set_option linter.unusedSimpArgs false
 namespace Stackage
 open Grammar
 
@@ -47,6 +48,21 @@ theorem C02_normal (K : Closures) (s : Stk) (h : s.cfg.rpf = none) : WSNormal (s
   by_cases hc : s.cfg.canString K = true
   · simp only [hc, if_true, h]; exact assemble_normal _ _
   · simp only [hc, Bool.false_eq_true, if_false]; exact wsnormal_nil
+
+/-! ## 2. what `condense` cannot see -/
+
+/-- **C02 (blank runs).** The length and composition (spaces, tabs) of a non-empty run of blanks,
+anywhere in a text, is invisible to `condenseWHSP`. -/
+theorem C02_blank_runs (a b r r' : Text) (hr : r ≠ []) (hr' : r' ≠ [])
+    (hb : ∀ c ∈ r, isBlank c = true) (hb' : ∀ c ∈ r', isBlank c = true) :
+    condense (a ++ r ++ b) = condense (a ++ r' ++ b) :=
+  Sim.condense (Sim.append (Sim.append (Sim.refl a)
+    ((Sim.blankRun hr hb).trans (Sim.blankRun hr' hb').symm)) (Sim.refl b))
+
+/-- **C02 (trim).** Leading and trailing blanks, any number, are invisible to `condenseWHSP`. -/
+theorem C02_trim (t r r' : Text) (hb : ∀ c ∈ r, isBlank c = true) (hb' : ∀ c ∈ r', isBlank c = true) :
+    condense (r ++ t ++ r') = condense t := by
+  rw [condense_append_blanks hb', condense_blanks_append hb]
 
 /-! ## 3. one level of the code is one level of the grammar -/
 
@@ -77,6 +93,7 @@ theorem elemText_eq_item (K : Closures) (pc : Cfg) : (v : Val) → elemText K pc
   | .zstk f => by simp [elemText, item]
   | .zcnd f => by simp [elemText, item]
   | .anys xs => by simp [elemText, item]
+  | .opv o => by simp [elemText, item]
 
 theorem elemsText_eq_items (K : Closures) (pc : Cfg) : (vs : List Val) → elemsText K pc vs = items K pc vs
   | [] => by rw [elemsText, items]
@@ -97,6 +114,7 @@ theorem exprRaw_eq_exprText (K : Closures) : (v : Val) → exprRaw K v = exprTex
   | .zstk f => by simp [exprRaw, exprText]
   | .zcnd f => by simp [exprRaw, exprText]
   | .anys xs => by simp [exprRaw, exprText]
+  | .opv o => by simp [exprRaw, exprText]
 end
 
 /-- **C02 (canonical rendering).** `String()` of an initialised stack equals the canonical
@@ -137,17 +155,13 @@ theorem elemText_basic (K : Closures) (pc : Cfg) (f : Form) (c : Cfg) (xs : List
   have h2 : (c.kind == Gen.kind_not) = false := by rw [hb]; decide
   simp [h1, h2]
 
-/-- one level of `assembleStringStack` on no items, non-parenthetical, is empty — except in
-lead-once mode of a non-LIST stack, where the operator is still written (see
-`lonce_empty_dangling` below) -/
-theorem assemble_nil (c : Cfg) (hp : c.paren = false)
-    (hl : c.lonce = false ∨ c.kind = Gen.kind_list) : c.assemble [] = [] := by
+/-- one level of `assembleStringStack` on no items, non-parenthetical, is empty, in every mode
+(post-repair: lead-once writes its operator only when there is an item) -/
+theorem assemble_nil (c : Cfg) (hp : c.paren = false) : c.assemble [] = [] := by
   rw [Cfg.assemble_unfold]
   have hb : c.asmBody [] = [] := by
     unfold Cfg.asmBody
-    rcases hl with hl | hl
-    · simp [hl, joinText]
-    · simp [hl, joinText]
+    cases c.lonce <;> simp [joinText]
   unfold Cfg.parenWrap
   rw [hb, hp]
   cases c.nspad
@@ -159,9 +173,9 @@ theorem assemble_nil (c : Cfg) (hp : c.paren = false)
 /-- a non-parenthetical stack none of whose elements renders (in particular an empty one)
 renders empty itself, NOT prefix included -/
 theorem elemText_empty_stack (K : Closures) (pc : Cfg) (f : Form) (c : Cfg) (xs : List Val)
-    (hx : elemsText K c xs = []) (hp : c.paren = false) (hr : c.rpf = none)
-    (hl : c.lonce = false ∨ c.kind = Gen.kind_list) : elemText K pc (.stk f c xs) = [] := by
-  rw [elemText, hx, hr, assemble_nil c hp hl]
+    (hx : elemsText K c xs = []) (hp : c.paren = false) (hr : c.rpf = none) :
+    elemText K pc (.stk f c xs) = [] := by
+  rw [elemText, hx, hr, assemble_nil c hp]
   simp
 
 /-- an invalid Condition renders empty -/
@@ -175,12 +189,12 @@ theorem C02_nothing_basic (K : Closures) (c : Cfg) (pre post : List Val) (f : Fo
     Stk.String K ⟨c, pre ++ .stk f c' ys :: post⟩ = Stk.String K ⟨c, pre ++ post⟩ :=
   C02_nothing K c pre post _ (elemText_basic K c f c' ys hb)
 
-/-- **C02 (nothing), empty stack.** An empty non-parenthetical stack of any kind (not in
-lead-once mode unless a LIST) inserted anywhere leaves `String()` unchanged. -/
+/-- **C02 (nothing), empty stack.** An empty non-parenthetical stack of any kind, in any mode
+(lead-once included), inserted anywhere leaves `String()` unchanged. -/
 theorem C02_nothing_empty (K : Closures) (c : Cfg) (pre post : List Val) (f : Form) (c' : Cfg)
-    (hp : c'.paren = false) (hr : c'.rpf = none) (hl : c'.lonce = false ∨ c'.kind = Gen.kind_list) :
+    (hp : c'.paren = false) (hr : c'.rpf = none) :
     Stk.String K ⟨c, pre ++ .stk f c' [] :: post⟩ = Stk.String K ⟨c, pre ++ post⟩ :=
-  C02_nothing K c pre post _ (elemText_empty_stack K c f c' [] (elemsText_nil K c') hp hr hl)
+  C02_nothing K c pre post _ (elemText_empty_stack K c f c' [] (elemsText_nil K c') hp hr)
 
 /-- **C02 (nothing), invalid Condition.** -/
 theorem C02_nothing_invalid (K : Closures) (c : Cfg) (pre post : List Val) (f : Form) (c' : Cfg)
@@ -310,5 +324,67 @@ theorem C02_single_leaf (K : Closures) (c : Cfg) (l : Leaf) (t : Text)
     Bool.false_eq_true, if_false]
   unfold level
   cases c.lonce <;> simp [joinText]
+
+/-! ## 7. the hypotheses are satisfiable: concrete trees -/
+
+namespace C02Example
+
+def K0 : Closures := {}
+def str (s : String) : Val := .leaf (.str s.toList)
+
+def notCfg : Cfg := { kind := Gen.kind_not }
+def listCfg : Cfg :=
+  { kind := Gen.kind_list, opt := Gen.flag_nspad, enc := [[['['], [']']]], ljc := [','] }
+
+/-- a parenthetical AND holding a leaf, a BASIC stack, a NOT stack, an empty lead-once OR, an
+invalid Condition and a no-padding LIST with delimiter and bracket encapsulation -/
+def tree : Stk :=
+  ⟨{ kind := Gen.kind_and, opt := Gen.flag_parens },
+   [str "a",
+    .stk .native { kind := Gen.kind_basic } [str "zz"],
+    .stk .native notCfg [str "x"],
+    .stk .native { kind := Gen.kind_or, opt := Gen.flag_lonce } [],
+    .cnd .native {} [] .none .nil,
+    .stk .native listCfg [str "b", str "c \t d"]]⟩
+
+example : tree.String K0 = "( a AND NOT x AND [b],[c d] )".toList := by decide
+example : canon K0 tree = "( a AND NOT x AND [b],[c d] )".toList := by decide
+example : WSNormal (tree.String K0) := C02_normal K0 tree rfl
+
+/-- the same tree with the three "nothing" elements removed renders the same -/
+example : tree.String K0 =
+    Stk.String K0 ⟨tree.cfg, [str "a", .stk .native notCfg [str "x"],
+      .stk .native listCfg [str "b", str "c \t d"]]⟩ := by decide
+
+/-- `C02_nothing_basic` applies to `tree` (position 1) -/
+example : Stk.String K0 ⟨tree.cfg, [str "a"] ++ .stk .native { kind := Gen.kind_basic } [str "zz"] :: []⟩ =
+    Stk.String K0 ⟨tree.cfg, [str "a"] ++ []⟩ :=
+  C02_nothing_basic K0 _ _ _ _ _ _ rfl
+
+/-- `C02_verbatim_nested` applies: the leaf `b` two levels down, inside its brackets -/
+example : "[b]".toList <:+: tree.String K0 :=
+  (C02_verbatim_nested K0 tree ⟨listCfg, [str "b", str "c \t d"]⟩ (.str ['b']) ['b']
+    (by decide) rfl
+    (Within.child (f := .native) Within.top (by simp [tree]) (by decide) rfl)
+    rfl (by simp [str]) (by decide)).2 (by decide)
+
+/-- a text *with* blanks is not reproduced verbatim (it is condensed) … -/
+example : ¬ ("c \t d".toList <:+: tree.String K0) := by decide
+
+/-- … and an encapsulation string containing blanks is condensed too: the hypothesis of
+`C02_verbatim` on the encapsulation strings cannot be dropped -/
+example :
+    let s : Stk := ⟨{ kind := Gen.kind_and, enc := [[[' ', ' ']]] }, [str "a", str "b"]⟩
+    s.String K0 = "a AND b".toList ∧ ¬ (encapValue s.cfg.enc ['a'] <:+: s.String K0) := by decide
+
+/-- lead-once, symbol, fold, nested parenthetical no-padding stack -/
+example :
+    Stk.String K0 ⟨{ kind := Gen.kind_or, opt := Gen.flag_lonce + Gen.flag_cfold },
+      [str "p", .stk .native { kind := Gen.kind_and, sym := ['&'], opt := Gen.flag_parens + Gen.flag_nspad }
+        [str "q", str "r"]]⟩ = "or p (q&r)".toList := by decide
+
+example : condense "  a \t\t b  ".toList = "a b".toList := by decide
+
+end C02Example
 
 end Stackage
